@@ -370,6 +370,110 @@ Proof.
     rewrite He, H2. split; [exact H1 | reflexivity].
 Qed.
 
+(* (f): the remembered pair is the latest successful upstream start's, and every base start uses it *)
+Lemma maybe_start_args : forall s bg th t s1 o1 err,
+    maybe_start s bg th t = (s1, o1, err) ->
+    bstart_args_ok bg th o1 = true /\ th_bg s1 = th_bg s /\ th_thresh s1 = th_thresh s.
+Proof.
+  intros s bg th t s1 o1 err H. unfold maybe_start in H.
+  destruct (available (th_b s) t) as [b1 av].
+  destruct (av >=? th_min s).
+  - destruct (tpop (th_faults s)) as [failed f']. destruct failed; inversion H; subst; clear H;
+      cbn [bstart_args_ok forallb th_bg th_thresh]; rewrite !Z.eqb_refl; auto.
+  - inversion H; subst; clear H. cbn. auto.
+Qed.
+
+Lemma bstart_args_app : forall bg th a b,
+    bstart_args_ok bg th (a ++ b) = bstart_args_ok bg th a && bstart_args_ok bg th b.
+Proof. intros. unfold bstart_args_ok. apply forallb_app. Qed.
+
+Lemma th_stop_args : forall s s1 o1 err bg th,
+    th_stop s = (s1, o1, err) ->
+    bstart_args_ok bg th o1 = true /\ th_bg s1 = th_bg s /\ th_thresh s1 = th_thresh s.
+Proof.
+  intros s s1 o1 err bg th H. unfold th_stop in H. destruct (th_rec s).
+  - destruct (tpop (th_faults s)) as [failed f']. inversion H; subst. cbn. auto.
+  - inversion H; subst. cbn. auto.
+Qed.
+
+Lemma ret_err_app_false : forall o, ret_err o = false -> ret_err (o ++ [Ret false]) = false.
+Proof. intros o H. unfold ret_err in *. rewrite existsb_app, H. reflexivity. Qed.
+
+Lemma ret_err_app_true : forall o, ret_err (o ++ [Ret true]) = true.
+Proof. intros o. unfold ret_err. rewrite existsb_app. cbn. apply orb_true_r. Qed.
+
+Lemma maybe_start_no_ret : forall s bg th t s1 o1 err,
+    maybe_start s bg th t = (s1, o1, err) -> ret_err o1 = false.
+Proof.
+  intros s bg th t s1 o1 err H. unfold maybe_start in H.
+  destruct (available (th_b s) t) as [b1 av]. destruct (av >=? th_min s).
+  - destruct (tpop (th_faults s)) as [failed f']. destruct failed; inversion H; reflexivity.
+  - inversion H; reflexivity.
+Qed.
+
+Ltac fin_f :=
+  unfold bstart_args_ok in *;
+  repeat (rewrite ?forallb_app; cbn [forallb app andb th_bg th_thresh] in * );
+  repeat match goal with H : forallb _ _ = true |- _ => rewrite H; clear H end;
+  cbn [andb];
+  repeat match goal with
+         | H : th_bg _ = _ |- _ => rewrite H; clear H
+         | H : th_thresh _ = _ |- _ => rewrite H; clear H
+         end;
+  auto.
+
+Lemma step_f : forall s u s' o,
+    thstep s u = (s', o) ->
+    match u with
+    | UStart bg th _ => bstart_args_ok bg th o = true /\
+                        (th_bg s', th_thresh s') = (if ret_err o then (th_bg s, th_thresh s) else (bg, th))
+    | _ => bstart_args_ok (th_bg s) (th_thresh s) o = true /\ (th_bg s', th_thresh s') = (th_bg s, th_thresh s)
+    end.
+Proof.
+  intros s u s' o H. destruct u as [|bg th t1|id t1 t2|]; cbn [thstep] in H.
+  - destruct (tpop (th_faults s)) as [failed f']. inversion H; subst. cbn. auto.
+  - destruct (maybe_start s bg th t1) as [[s1 o1] err] eqn:Hm.
+    pose proof (maybe_start_no_ret _ _ _ _ _ _ _ Hm) as Hnr.
+    destruct (maybe_start_args _ _ _ _ _ _ _ Hm) as (Ha & Hb & Ht).
+    destruct err; inversion H; subst; clear H.
+    + rewrite ret_err_app_true. fin_f.
+    + assert (Hr : ret_err (o1 ++ (if th_rec s1 then [] else [Throttled]) ++ [Ret false]) = false).
+      { unfold ret_err in *. rewrite !existsb_app, Hnr. destruct (th_rec s1); reflexivity. }
+      rewrite Hr. destruct (th_rec s1); fin_f.
+  - destruct (negb (th_rec s)) eqn:Hrec.
+    + destruct (maybe_start s (th_bg s) (th_thresh s) t1) as [[s1 o1] err] eqn:Hm.
+      destruct (maybe_start_args _ _ _ _ _ _ _ Hm) as (Ha & Hb & Ht).
+      destruct err.
+      * inversion H; subst. fin_f.
+      * destruct (negb (th_rec s1)) eqn:Hr1.
+        -- inversion H; subst. fin_f.
+        -- destruct (take1 (th_b s1) t2) as [b2 k]. cbn [th_rec th_min th_bg th_thresh th_faults th_b] in H.
+           destruct (k >? 0).
+           ++ destruct (tpop (th_faults s1)) as [failed f']. inversion H; subst. fin_f.
+           ++ destruct (th_stop (mkTh b2 (th_rec s1) (th_min s1) (th_bg s1) (th_thresh s1) (th_faults s1))) as [[s3 o3] serr] eqn:Hs.
+              destruct (th_stop_args _ _ _ _ (th_bg s) (th_thresh s) Hs) as (Hc & Hd & He).
+              inversion H; subst. fin_f.
+    + destruct (take1 (th_b s) t1) as [b2 k]. cbn [th_rec th_min th_bg th_thresh th_faults th_b negb] in H.
+      destruct (k >? 0).
+      * destruct (tpop (th_faults s)) as [failed f']. inversion H; subst. fin_f.
+      * destruct (th_stop (mkTh b2 (th_rec s) (th_min s) (th_bg s) (th_thresh s) (th_faults s))) as [[s3 o3] serr] eqn:Hs.
+        destruct (th_stop_args _ _ _ _ (th_bg s) (th_thresh s) Hs) as (Hc & Hd & He).
+        inversion H; subst. fin_f.
+  - destruct (th_stop s) as [[s1 o1] err] eqn:Hs.
+    destruct (th_stop_args _ _ _ _ (th_bg s) (th_thresh s) Hs) as (Hc & Hd & He).
+    inversion H; subst. fin_f.
+Qed.
+
+Lemma run_f : forall us s,
+    S06f_from (th_bg s, th_thresh s) (combine us (thrun s us)) = true.
+Proof.
+  induction us as [|u us IH]; intros s; [reflexivity|].
+  cbn [thrun]. destruct (thstep s u) as [s' o] eqn:Hst. cbn [combine S06f_from].
+  pose proof (step_f _ _ _ _ Hst) as Hf.
+  destruct u as [|bg th t1|id t1 t2|]; destruct Hf as [Ha Hb]; cbn [fst snd]; rewrite Ha; cbn [andb];
+    rewrite <- Hb; apply IH.
+Qed.
+
 (* C06: conforming upstream sequences, non-decreasing clock, base start/write/stop failing anywhere *)
 Theorem S06_holds : forall cap q fi minlen faults us,
     1 <= cap -> 1 <= q -> 1 <= fi ->
@@ -378,12 +482,13 @@ Theorem S06_holds : forall cap q fi minlen faults us,
     S06 minlen (thsteps cap q fi minlen faults us) = true.
 Proof.
   intros cap q fi minlen faults us Hcap Hq Hfi Hmono Hconf.
-  unfold thsteps, conforming, monotone, S06, S06a, S06bd, S06e in *.
+  unfold thsteps, conforming, monotone, S06, S06a, S06bd, S06e, S06f in *.
   assert (Hinv : Inv minlen (th_init cap q fi minlen faults) (mk06 false 0 true) false 0).
   { unfold Inv, th_init, bucket_new, binv, current_tick.
     cbn [th_b th_min th_rec s06_open s06_ok s06_n b_cap b_q b_fi b_avail b_latest].
     rewrite Z.quot_0_l by lia.
     repeat split; try lia; discriminate. }
   destruct (run_bde _ _ _ _ _ _ Hinv Hmono Hconf) as [Hbd He].
-  rewrite (run_a us (th_init cap q fi minlen faults) false eq_refl Hconf), Hbd, He. reflexivity.
+  rewrite (run_a us (th_init cap q fi minlen faults) false eq_refl Hconf), Hbd, He.
+  exact (run_f us (th_init cap q fi minlen faults)).
 Qed.
